@@ -216,14 +216,16 @@ class FakeS3:
         return res
 
     def list_objects_v2(self, Bucket: str, Prefix: str = "", MaxKeys: int = 1000, ContinuationToken: Optional[str] = None,
-                        **kw: Any) -> Dict[str, Any]:
+                        StartAfter: Optional[str] = None, **kw: Any) -> Dict[str, Any]:
         self._chk(Bucket)
-        req = Req("LIST", Prefix, "l", extra=ContinuationToken)
+        req = Req("LIST", Prefix, "l", extra=ContinuationToken or (("start-after", StartAfter) if StartAfter else None))
         self._gate(req)
         try:
             allkeys = sorted(k for k in self.objs if k.startswith(Prefix))
             if ContinuationToken:
                 allkeys = [k for k in allkeys if k > ContinuationToken]
+            elif StartAfter:
+                allkeys = [k for k in allkeys if k > StartAfter]
             n = max(1, min(MaxKeys, self.page_size))
             keys = allkeys[:n]
             res: Dict[str, Any] = {"KeyCount": len(keys), "IsTruncated": len(allkeys) > n}
